@@ -391,6 +391,9 @@ def check_C16(ctx):
                         variants={"%s/%s" % k: v for k, v in kinds.items()},
                         rule="tapes of generated histories, cut at record/archive boundaries (aligned) and inside header groups / data (torn), combined with an absent, current or stale index; then Initialize, two writes, a read-back and a rebuild; distinct = different (tape, cut, index kind)",
                         samples=[dict(cut=data[0]["h"]["cut"], full=data[0]["h"]["full"], index=data[0]["h"]["index"], outcomes=[r["out"] for r in data[0]["res"]][-8:])] if data else [])
+    # the continuation from a rebuilt index against its writer twin (statement of Proofs/T19 on the implementation + M1 tie of the reader)
+    import twin
+    twin.check_twin(ctx)
 
 
 def check_C17(ctx):
